@@ -18,7 +18,19 @@ func (l *List[T]) Front() *Node[T] { return l.front }
 func (l *List[T]) Back() *Node[T] { return l.back }
 
 // Clear removes all nodes from the list.
-func (l *List[T]) Clear() { l.front = nil; l.back = nil; l.size = 0 }
+func (l *List[T]) Clear() {
+	// Like Remove, leave no links on the nodes that are dropped: a caller still holding one of them must not be
+	// able to walk from it (nor keep the others alive through it).
+	for node := l.front; node != nil; {
+		next := node.next
+		node.prev = nil
+		node.next = nil
+		node = next
+	}
+	l.front = nil
+	l.back = nil
+	l.size = 0
+}
 
 // PushFront adds a new node with the given value to the front of the list.
 func (l *List[T]) PushFront(value T) *Node[T] {
